@@ -44,8 +44,12 @@ def diff(a, b):
     return removed, created, changed
 
 
-def build_tree(files, rng, archive_extra=()):
+def build_tree(files, rng, archive_extra=(), path_word=None):
     root = tempfile.mkdtemp(prefix="verif_c11_")
+    if path_word:
+        # the path of the PEL directory carries the word (an id): only file names count
+        root = os.path.join(root, "dump_" + path_word)
+        os.makedirs(root)
     pel = os.path.join(root, "logs")
     os.makedirs(os.path.join(pel, "archive"))
     for name, data, _ in files:
@@ -107,7 +111,7 @@ def run(run, model, proof):
         if rng.random() < 0.25:
             e = arch_only                       # the id is carried by an archived file only
         espell = rng.choice(["%08X", "0x%08x", "%08x"]) % e
-        root, pel = build_tree(files, rng, [("old_%08X.pel" % arch_only, dirgen.set_ids(files[0][1], eid=arch_only) if files and files[0][2]["kind"] == "pel" else b"archived")])
+        root, pel = build_tree(files, rng, path_word=("%08X" % e if rng.random() < 0.25 else None), archive_extra=[("old_%08X.pel" % arch_only, dirgen.set_ids(files[0][1], eid=arch_only) if files and files[0][2]["kind"] == "pel" else b"archived")])
         try:
             excl = os.path.join(root, "ex.txt")
             open(excl, "w").write("BD8D\n")
@@ -151,7 +155,7 @@ def run(run, model, proof):
         finally:
             for sk in locals().get("socks", []):
                 sk.close()
-            shutil.rmtree(root, ignore_errors=True)
+            shutil.rmtree(root if os.path.basename(root).startswith("verif_c11_") else os.path.dirname(root), ignore_errors=True)
         removed, created, changed = diff(before, after)
         run.evaluations += 1
         run.count("kind:" + kind)
